@@ -4,6 +4,7 @@ CONSTANTS
     CacheSound = FALSE
     MaxAlter = 2
     TamperFields = {"resign", "prev", "epoch", "avk", "params", "msgEpoch", "nextAvk", "nextParams", "sig", "kind"}
+    MsgModes = {"k", "r"}
     ForgeEpochs = {1, 2, 3, 4}
     Forge2Pars = {"p"}
     ForgeKeys = {"H3", "H4", "A"}
